@@ -94,3 +94,20 @@ def corrupt_text(rng, s):
     j = rng.randrange(len(s))
     a, b = min(i, j), max(i, j)
     return s[:a] + s[b:]
+
+
+META_BITS = ['::id 1', '::snt a b', '::k', '::k  v', ':: v', '::', '::a::b', ':::c', '::date 2012-12-23',
+             '::x\ty', '::tok ( ) / : ~ "', '::u \u2028z', '::e \xa0', '::alignments 0-1 1-2', 'plain',
+             ';; note', '::k: v:', '::url http://x/y::z']
+META_GAPS = [' ', '  ', '   ', '\t', ' \t ', '']
+
+
+def comment_line(rng):
+    """a comment line with 0-4 '::key value' groups separated by irregular blanks
+    (multi-key metadata lines, documented in docs/notation.rst)"""
+    n = rng.randrange(0, 5)
+    parts = [rng.choice(META_BITS) for _ in range(n)]
+    line = '#' + rng.choice(['', ' ', '  '])
+    for i, p in enumerate(parts):
+        line += (rng.choice(META_GAPS) if i else '') + p
+    return line + rng.choice(['', ' ', '  \t'])
